@@ -70,12 +70,12 @@ PROPS["C07"] = {
     "witness_always": ["stdlib_expansion"],
     "witness_bound": {"stdlib_expansion": "1232 generated conditional trees of depth <= 3 (\\iftrue/\\iffalse/\\ifnum/\\ifodd incl. negative operands/\\ifcase -1..3, \\let aliases, unbalanced braces in skipped text) against a tree evaluator; every token string of length <= 6 over {\\expandafter, three macros, a letter, a macro with a DELIMITED parameter (which grabs tokens unexpanded, so the moment of each expansion shows in the output)} (42856 strings without runaway arguments) expanded by BOTH \\expandafter implementations against a transcription of TeX's expand-once rule"},
     "level": "proof",
-    "verus": ["stdlib_cond"],
+    "verus": ["stdlib_cond", "stdlib_expandafter"],
     "kani": [],
     "unverified_callers": [
         "Condition::build_if_command closure (evaluate -> true_case/false_case dispatch) and the VM expansion loop",
         "Parsable for i32 / (i32, Ordering, i32): assumed to return an arbitrary value and only consume tokens",
-        "expansion.rs: \\expandafter simple vs optimised equivalence is covered by the bounded driver only (expand_once is VM-internal, no contract within reach); \\noexpand is NOT decided",
+        "expansion.rs: both \\expandafter implementations are PROVED to satisfy the same postcondition (TeX's rule) over a trusted model of ExpandedStream::expand_once (one step on the first pending token; on an \\expandafter token that step is the rule itself - the induction hypothesis); \\noexpand and \\relax are NOT decided",
         "command tags preserved by \\let (assumed: tag_of reads the tag of the aliased command)",
     ],
     "assumptions": ["the four conditional tags are pairwise distinct (StaticTag uniqueness, C20 tag clause)", "fewer than 2^31 - 65536 pending tokens (depth counter is an i32)"],
@@ -164,7 +164,7 @@ PROPS["C02"] = {
 PROPS["C09"] = {
     "level": "proof",
     "only_kinds": ["overflow", "div-by-zero", "bounds", "precondition", "shift", "assertion", "concrete-counterexample", "kani"],
-    "verus": ["common_scaled", "texlang_parse_int", "texlang_parse_dimen", "texlang_parse_glue", "stdlib_math", "stdext_groupingmap", "stdext_kmp", "texlang_savestack", "texlang_cmdmap", "texlang_vmgroups", "stdlib_prefix", "stdlib_cond", "texlang_macro"],
+    "verus": ["common_scaled", "texlang_parse_int", "texlang_parse_dimen", "texlang_parse_glue", "stdlib_math", "stdext_groupingmap", "stdext_kmp", "texlang_savestack", "texlang_cmdmap", "texlang_vmgroups", "stdlib_prefix", "stdlib_cond", "stdlib_expandafter", "texlang_macro"],
     "kani": [],
     "witness_always": ["texlang_parse_num", "stdlib_totality"],
     "witness_fns": {"texlang_parse_num": ["parse_impl", "parse_constant", "scan_dimen"]},
